@@ -2,6 +2,7 @@
 // lines (drawn from the C01-C05 generators), cached "assembled alone" bytes, NOP
 // recognition, and rapidcheck driving glue.
 #pragma once
+#include <chrono>
 #include "gen.hpp"
 #include <rapidcheck.h>
 #include <sstream>
@@ -79,7 +80,15 @@ static inline void rc_rounds(hz::Ctx &ctx, const std::string &name, long long ca
     params.maxSuccess = (int)std::min<long long>(round_size, mine - done); params.maxSize = max_size; params.maxDiscardRatio = 20;
     rc::detail::TestMetadata md; md.id = name; md.description = name;
     rcstate().have = false;
-    auto result = rc::detail::checkTestable(prop, md, params);
+    // the search for a smaller counterexample is bounded (3000 evaluations or 45 s per falsified round): on a tree where a large part of the cases
+    // fails, or where failing does not depend monotonically on the generated values, shrinking would otherwise take hours.  Past the bound every
+    // candidate "passes", so rapidcheck settles on the smallest failing case found so far (which is what rcstate().last holds).
+    long shrink_evals = 0; auto shrink_t0 = std::chrono::steady_clock::now(); bool shrink_started = false;
+    auto bounded = [&]() {
+      if (rcstate().have) { if (!shrink_started) { shrink_started = true; shrink_t0 = std::chrono::steady_clock::now(); }
+        if (++shrink_evals > 3000 || std::chrono::steady_clock::now() - shrink_t0 > std::chrono::seconds(45)) return; }
+      prop(); };
+    auto result = rc::detail::checkTestable(bounded, md, params);
     rc::detail::FailureResult fr;
     if (result.match(fr)) {
       failures++;
